@@ -255,6 +255,13 @@ def mutation_programs():
     ps.append(("s := \"ab\"\nfor [i, c] in s {\n    s += \"z\"\n    print(c)\n}\nprint(s)\n", "a\nb\nabzz\n"))
     ps.append(("i := 0\nwhile i < 3 {\n    i += 1\n    if i == 2 {\n        continue\n    }\n    print(i)\n}\n", "1\n3\n"))
     ps.append(("fn f() {\n    for [i, v] in [1, 2, 3] {\n        while true {\n            {\n                if v == 2 {\n                    return v\n                }\n            }\n            break\n        }\n        print(v)\n    }\n    return 0\n}\nprint(f())\n", "1\n2\n"))
+    # the snapshot is taken whatever expression names the iterable: a variable, a property, an element, a call result
+    pre = ('xs := [1, 2, 3]\nob := {"a": 1, "b": 2, "c": 3}\nw := {"xs": xs, "ob": ob, "get": fn() { return this.xs; }, "geto": fn() { return this.ob; }}\n'
+           'rows := [xs, ob]\nfn get() {\n    return xs\n}\nfn geto() {\n    return ob\n}\nfn id(v) {\n    return v\n}\n')
+    for it in ["xs", "(xs)", "w.xs", 'w["xs"]', "rows[0]", "get()", "w.get()", "id(xs)", "id(w).xs", "[xs][0]"]:
+        ps.append((pre + f"for [i, v] in {it} {{\n    xs[2] = 9\n    xs[1] = 8\n    xs += [7]\n    print(v)\n}}\nprint(xs[2])\n", "1\n2\n3\n9\n"))
+    for it in ["ob", "(ob)", "w.ob", 'w["ob"]', "rows[1]", "geto()", "w.geto()", "id(ob)", "{\"k\": ob}.k"]:
+        ps.append((pre + f"for [k, v] in {it} {{\n    ob.c = 9\n    ob.b = 8\n    ob.d = 7\n    print(v)\n}}\nprint(ob.c)\n", "1\n2\n3\n9\n"))
     return [(s, o, "0") for s, o in ps]
 
 
